@@ -21,6 +21,7 @@ RULE = ("program tree (depth<=3) over the numeric core {+ - * % ^ ! :% = < > | &
         "and backend=torch(cpu); a second generator emits compiler-only programs which must be accepted by both backends; "
         "non-trivial = both backends returned, some operand is a list and depth>=2; distinct by (program, bindings)")
 ASSUMPTIONS = [
+    "a non-integral real within float32 tolerance of an integer may legitimately come back as an integer from torch (Power's integral-result coercion is precision-dependent)",
     "elements compared rel 1e-5 / abs 1e-6 (float32 rounding); integer/real kind and nesting compared exactly",
     "writer texts are tokenised: bracket structure and integer tokens identical, real tokens within the same tolerance",
     "a case where both results hold inf/nan/|n|>=2^62 (overflow or pole) is rejected, not judged",
@@ -141,8 +142,15 @@ _K = {}
 
 
 def interp(backend):
+    """One interpreter per backend and process, recycled every 300 evaluations (variables are rebound
+    before every evaluation; a fresh one costs ~1 ms on torch)."""
     from klongpy import KlongInterpreter
-    return KlongInterpreter(backend='torch', device='cpu') if backend == 'torch' else KlongInterpreter()
+    ent = _K.get(backend)
+    if ent is None or ent[1] >= 300:
+        ent = [KlongInterpreter(backend='torch', device='cpu') if backend == 'torch' else KlongInterpreter(), 0]
+        _K[backend] = ent
+    ent[1] += 1
+    return ent[0]
 
 
 def evaluate(backend, e, binds):
@@ -186,18 +194,37 @@ def texts_agree(a, b):
         except ValueError:
             return False
         isint = lambda s: re.fullmatch(r'-?\d+', s) is not None
-        if isint(x) != isint(y):
-            return False
         if not (abs(fx - fy) <= AT + RT * max(abs(fx), abs(fy))):
             return False
+        if isint(x) != isint(y):
+            real = fy if isint(x) else fx      # see agree(): near-integral real vs float32 integer
+            if real == round(real) or abs(real - round(real)) > AT + RT * abs(real):
+                return False
     return True
+
+
+def agree(a, b):
+    """numpy value a vs torch value b: same structure, elements within single-precision tolerance, same
+    integer/real kind - except that a real which lies within that tolerance of an integer may come back as
+    an integer from the float32 backend (Power coerces integral results; 6.75^6.75 is integral in float32)."""
+    if a[0] == 'l' or b[0] == 'l':
+        return a[0] == b[0] and len(a[1]) == len(b[1]) and all(agree(x, y) for x, y in zip(a[1], b[1]))
+    if a[0] in 'ir' and b[0] in 'ir':
+        fa, fb = float(a[1]), float(b[1])
+        if not (fa == fb or abs(fa - fb) <= AT + RT * max(abs(fa), abs(fb))):
+            return False
+        if a[0] == b[0]:
+            return True
+        real = fa if a[0] == 'r' else fb
+        return real != round(real) and abs(real - round(real)) <= AT + RT * abs(real)
+    return ceq(a, b, rtol=RT, atol=AT)
 
 
 def compare(n, t):
     """None if agree else (category, expected(numpy), observed(torch))."""
     if n[0] != 'val' or t[0] != 'val':
         return None
-    if not ceq(n[1], t[1], rtol=RT, atol=AT):
+    if not agree(n[1], t[1]):
         return (category(n[1], t[1]), show(n[1])[:150], show(t[1])[:150])
     if not texts_agree(n[2], t[2]):
         return ('text', n[2][:150], t[2][:150])
@@ -234,7 +261,39 @@ def finding_key(e, binds, kind):
     return f"{kind}/{opname(s)}/{','.join(traits)}/{cat}"
 
 
+def all_int(c):
+    if c[0] == 'l':
+        return all(all_int(x) for x in c[1])
+    return c[0] == 'i'
+
+
+def out_of_domain(e, binds):
+    """Reference domain of the verbs used: Remainder and Integer-Divide take integers only; a power
+    whose base holds 0 with a negative exponent is a pole. Checked on the numpy values of the operands."""
+    for s in subexprs(e):
+        if s[0] not in 'vn':
+            r = evaluate('numpy', s, {v: binds[v] for v in vars_of(s)})
+            if r[0] == 'val' and _has(r[1], lambda n: abs(n) >= 2 ** 24):
+                return 'magnitude beyond 2^24 (float32 no longer holds integers exactly)'
+        if s[0] == 'd' and s[1] in ('!', ':%', '^'):
+            vals = []
+            for x in kids(s):
+                r = evaluate('numpy', x, {v: binds[v] for v in vars_of(x)})
+                if r[0] != 'val':
+                    return None
+                vals.append(r[1])
+            if s[1] in ('!', ':%') and not (all_int(vals[0]) and all_int(vals[1])):
+                return 'remainder / integer-divide with a non-integer operand'
+            if s[1] == '^' and _has(vals[0], lambda n: n == 0) and _has(vals[1], lambda n: n < 0):
+                return 'zero raised to a negative power (pole)'
+    return None
+
+
 def judge(stats, report, e, binds, compilable_only):
+    why = out_of_domain(e, binds)
+    if why:
+        stats.reject(why)
+        return
     n = evaluate('numpy', e, binds)
     t = evaluate('torch', e, binds)
     if n[0] == 'bind-error' or t[0] == 'bind-error':
@@ -286,7 +345,7 @@ def shard(compilable_only, seed_value, n):
 
 def check(run):
     quick = run.tier == 'quick'
-    per = 500 if quick else 15000
+    per = 1500 if quick else 25000
     jobs = [(False, run.seed * 1000 + i, per) for i in range(11)] + [(True, run.seed * 1000 + 50 + i, per) for i in range(5)]
     run.absorb(core.pool_map('vk.c08_backends', 'shard', jobs))
     run.min_class_fraction = {'both-returned': 0.3}
